@@ -23,7 +23,8 @@ API
     lay = lay_out(tokens, separators, directives=None, filename="",
                   paste="space", end_newline=True, is_type=None)
 
-    tokens      list of spellings; a spelling starting with "#pragma" (optional
+    tokens      list of spellings; a spelling of the form `#pragma ...` (blanks
+                allowed before '#' and between '#' and the word, optional
                 trailing newline) is a pragma token and gets its own line
     separators  list of blank strings (only ' ', '\t', '\n'): either
                 len(tokens)-1 (between tokens) or len(tokens)+1 (leading,
@@ -54,6 +55,8 @@ API
 """
 from __future__ import annotations
 
+import re
+
 from models import lexref
 
 BLANKS = " \t\n"
@@ -68,14 +71,22 @@ class Directive:
         return f"Directive({self.indent + self.text!r})"
 
 
-def line_directive(n, file=None, flags=(), keyword=True, indent="", field_sep=" "):
+def line_directive(n, file=None, flags=(), keyword=True, indent="", field_sep=" ",
+                   hash_gap=None):
     """`#line N ["f"]` (keyword=True) or the linemarker `# N ["f" flags]`;
-    field_sep: the blanks between the fields (spaces and/or tabs)."""
+    field_sep: the blanks between the fields (spaces and/or tabs); hash_gap:
+    the blanks between '#' and what follows it (default: none before `line`,
+    field_sep before the number of a linemarker)."""
     if not field_sep or field_sep.strip(" \t"):
         raise ValueError("field_sep must be blanks")
+    if hash_gap is not None and hash_gap.strip(" \t"):
+        raise ValueError("hash_gap must be blanks")
     d = Directive()
     d.kind = "line"
-    t = ("#line" if keyword else "#") + field_sep
+    if keyword:
+        t = "#" + (hash_gap or "") + "line" + field_sep
+    else:
+        t = "#" + (field_sep if hash_gap is None else hash_gap)
     t += str(n)
     if file is not None:
         t += field_sep + '"' + file + '"'
@@ -110,13 +121,21 @@ def pragma_directive(text=None, indent="", hash_gap=""):
     return d
 
 
+_PRAGMA_TOKEN = re.compile(r"^([ \t]*)#([ \t]*)pragma(?![0-9A-Za-z_$])[ \t]*(.*?)[ \t]*\n?$")
+
+
+def is_pragma_token(spelling):
+    """A token spelling that is a pragma line: `#pragma x`, `# pragma x`,
+    `  #\tpragma`, optionally with a trailing newline."""
+    return _PRAGMA_TOKEN.match(spelling) is not None
+
+
 def parse_pragma_token(spelling):
-    """'#pragma x\n' / '#pragma' -> Directive."""
-    s = spelling.rstrip("\n")
-    if not s.startswith("#pragma"):
+    """'#pragma x\n' / '  # pragma' -> Directive (indent and hash gap kept)."""
+    m = _PRAGMA_TOKEN.match(spelling)
+    if m is None:
         raise ValueError(spelling)
-    rest = s[len("#pragma"):].strip(" \t")
-    return pragma_directive(rest or None)
+    return pragma_directive(m.group(3) or None, indent=m.group(1), hash_gap=m.group(2))
 
 
 class TokPos:
@@ -249,7 +268,7 @@ def lay_out(tokens, separators, directives=None, filename="", paste="space",
             w.write(sep)
             break
         tok = tokens[g]
-        if tok.startswith("#pragma"):
+        if "#" in tok and is_pragma_token(tok):
             close_chunk()
             w.write(sep)
             d = parse_pragma_token(tok)
